@@ -176,11 +176,36 @@ func (s *c18) newClients() error {
 		}
 		cl.SetHTTPClient(&http.Client{Transport: s.srv.Transport(fmt.Sprintf("pk%s%d", root, s.gen))})
 		cl.Logger.SetOutput(io.Discard)
+		if s.p.SchedSeed%2 == 1 {
+			// every other run: the client remembers which blobs the server
+			// has, as pk-put does (no blob is ever removed here)
+			cl.SetHaveCache(&mapHaveCache{m: map[blob.Ref]uint32{}})
+			s.reach("client-with-have-cache")
+		}
 		s.mu.Lock()
 		s.clients[root] = cl
 		s.mu.Unlock()
 	}
 	return nil
+}
+
+// mapHaveCache is a client.HaveCache kept in memory.
+type mapHaveCache struct {
+	mu sync.Mutex
+	m  map[blob.Ref]uint32
+}
+
+func (c *mapHaveCache) StatBlobCache(br blob.Ref) (uint32, bool) {
+	c.mu.Lock()
+	defer c.mu.Unlock()
+	sz, ok := c.m[br]
+	return sz, ok
+}
+
+func (c *mapHaveCache) NoteBlobExists(br blob.Ref, size uint32) {
+	c.mu.Lock()
+	c.m[br] = size
+	c.mu.Unlock()
 }
 
 func (s *c18) reach(name string) {
@@ -1070,6 +1095,13 @@ func (s *c18) runGroup(ops []Op, i, j int) bool {
 					return true
 				}
 				continue
+			}
+			if faulted && mop.Kind == "fetch" && len(mop.B) == 1 && errors.Is(o.mres[x].Err, os.ErrNotExist) && m.Get(mop.B[0]) == sim.Present && !inflight[mop.B[0]] {
+				// a failing store makes a fetch fail; "does not exist" is
+				// not a failure report but an answer, and a wrong one
+				if s.report(op.K+">absent-under-store-fault", fmt.Sprintf("%s: the blob is present and the store's read failed, yet the client is told it does not exist: %v", op, o.mres[x].Err), i+k) {
+					return true
+				}
 			}
 			if vs := m.Check(mop, o.mres[x], faulted); len(vs) > 0 {
 				cl := classOf(vs[0])
